@@ -54,6 +54,8 @@ pub enum Op {
     RoundTrip { from: usize, to: usize, amount: u128 },
     DepositWithdraw { amounts: [u128; 3] },
     SetFees { fees: [String; 3] },
+    /// hostile: WithdrawLiquidity {} called directly with a native coin attached
+    WithdrawDirect { coin: usize, amount: u128 },
 }
 
 #[derive(Serialize, Deserialize, Clone, Debug, PartialEq)]
@@ -390,7 +392,7 @@ impl Scenario for Pool3 {
         let n = cfg.n_users;
         let mut bals: Vec<(&str, Vec<Coin>)> = vec![];
         for u in USERS.iter().take(n) {
-            let mut cs = vec![];
+            let mut cs = vec![coin(1_000_000, "ujunk")];
             for i in 0..3 {
                 if cfg.kinds[i] == Kind::Native {
                     cs.push(coin(cfg.user_funds, denoms[i]));
@@ -479,6 +481,7 @@ impl Scenario for Pool3 {
                 let slippage = if rng.chance(1, 4) { Some(atomics_to_dec(*rng.pick(&[0u128, E18 / 100, E18 / 2, E18, E18 + 1]))) } else { None };
                 Op::Provide { amounts, slippage }
             }
+            1 if rng.chance(1, 8) => Op::WithdrawDirect { coin: rng.idx(4), amount: *rng.pick(&[1u128, 1000, 3000, 3001, 999_999]) },
             1 => Op::Withdraw { lp: if lp == 0 { rng.range128(0, 5) } else { match rng.below(4) { 0 => lp, 1 => 1, _ => rng.edge_amount(lp) } } },
             2 | 5 => {
                 let from = rng.idx(3);
@@ -935,10 +938,11 @@ pub fn apply(s: &mut Pool3, step: &Step, ctx: &mut Ctx) {
                     let b2 = s.bal(who, *from);
                     if d2.ret > *amount || b2 > b0 {
                         let profit = d2.ret.saturating_sub(*amount);
-                        // D14: solver-termination dust, at most 2 base units
-                        let r_now = s.observe().map(|o| o.reserves).unwrap_or([0; 3]);
+                                                let r_now = s.observe().map(|o| o.reserves).unwrap_or([0; 3]);
                         let allow = imbalance_dust(&r_now, *from);
-                        let known = if profit <= 2 { Some("D14") } else if allow > 0 && profit <= allow { Some("D18") } else { None };
+                        // each leg may exceed the exact curve by up to 2 base units (D and y are each
+                        // solved to within 1 unit and the contract gives 1 unit back): 4 for the round trip
+                        let known = if profit <= 4 { Some("D14") } else if allow > 0 && profit <= allow { Some("D18") } else { None };
                         ctx.fail("C04", "there_and_back", "profit", known, format!("amp {} fees {:?}: {amount} of {from} -> {} of {to} -> {} of {from} (profit {profit})", s.amp_lin(), s.cfg.fees, d1.ret, d2.ret));
                     }
                 }
@@ -958,6 +962,19 @@ pub fn apply(s: &mut Pool3, step: &Step, ctx: &mut Ctx) {
         }
         Op::Withdraw { lp } => {
             do_withdraw(s, ctx, actor, *lp, step.fault, "withdraw");
+        }
+        Op::WithdrawDirect { coin, amount } => {
+            let denom = ["uaaa", "ubbb", "uccc", "ujunk"][*coin % 4];
+            let before = match s.observe() { Ok(o) => o, Err(e) => { ctx.fail("C04", "solvency", "queries_fail", None, e); return; } };
+            let r = tx(&mut s.app, who, vec![wasm_exec(&s.trio, &trio::ExecuteMsg::WithdrawLiquidity {}, vec![cosmwasm_std::coin(*amount, denom)])], Fault::None);
+            ctx.op("withdraw_direct_with_coin", r.outcome.kind());
+            let after = match s.observe() { Ok(o) => o, Err(e) => { ctx.fail("C04", "solvency", "queries_fail", None, e); return; } };
+            ctx.trace(&format!("withdraw_direct:{}:{:?}", r.outcome.kind(), after.reserves));
+            if r.outcome.is_ok() {
+                ctx.eval("C04");
+                ctx.fail("C04", "withdraw_needs_lp", "native_coin_accepted_as_lp", None, format!("WithdrawLiquidity {{}} with {amount}{denom} attached succeeded on a cw20-LP 3-pool; reserves {:?} -> {:?}", before.reserves, after.reserves));
+            }
+            global_invariants(s, ctx, &before, &after, r.outcome.is_ok(), "withdraw_direct_with_coin");
         }
         Op::Collect => {
             let before = match s.observe() { Ok(o) => o, Err(e) => { ctx.fail("C04", "solvency", "queries_fail", None, e); return; } };
